@@ -47,6 +47,27 @@ Definition ex_state : cstate :=
                  0 ] |}.
 
 Ltac str := split; [repeat constructor; discriminate|vm_compute; reflexivity].
+Ltac solve_wf := repeat match goal with
+  | |- state_ok _ => first [left; reflexivity | right; left; reflexivity | right; right; reflexivity]
+  | |- disk_ok _ _ _ _ => unfold disk_ok
+  | |- file_ok _ _ _ _ => unfold file_ok
+  | |- block_ok _ _ => unfold block_ok
+  | |- link_ok _ => unfold link_ok
+  | |- dir_ok _ => unfold dir_ok
+  | |- map_fields_ok _ => unfold map_fields_ok
+  | |- parity_ok _ => unfold parity_ok
+  | |- split_ok _ => unfold split_ok
+  | |- info_ok _ _ => unfold info_ok
+  | |- sorted_from _ _ => cbn [sorted_from fst]
+  | |- _ /\ _ => split
+  | |- True => exact I
+  | |- Forall _ [] => constructor
+  | |- Forall _ (_ :: _) => constructor
+  | |- str_ok _ _ => str
+  | |- _ -> _ => intros; discriminate
+  | |- _ <> _ => discriminate
+  | |- _ => first [ vm_compute; reflexivity | vm_compute; discriminate | cbn; lia ]
+  end.
 
 Lemma ex_wf : wf ex_state.
 Proof.
@@ -59,7 +80,38 @@ Proof.
   - right; left; reflexivity.
   - reflexivity.
   - reflexivity.
-  - repeat constructor; try str; try discriminate; try (vm_compute; reflexivity); try (vm_compute; discriminate);
-      try (left; reflexivity); try (right; left; reflexivity); try (right; right; reflexivity); try (cbn; lia); try (intros; discriminate).
-  Show.
-Abort.
+  - solve_wf.
+  - repeat constructor; cbn; intuition discriminate.
+  - solve_wf.
+  - repeat constructor; cbn; intuition discriminate.
+  - repeat constructor; cbn; intuition discriminate.
+  - intros m [<-|[<-|[<-|[]]]]; cbn; auto.
+  - reflexivity.
+  - intros d [<-|[<-|[<-|[]]]]; cbn; intros; auto; discriminate.
+  - vm_compute; discriminate.
+  - solve_wf.
+  - solve_wf.
+  - intros b [<-|[<-|[<-|[<-|[]]]]]; cbn; intros; try discriminate.
+Qed.
+
+(* the theorem replayed by computation on this state, at a clock before the newest info (clamping) *)
+Example ex_roundtrip_computed : decode (conf_of ex_state) (encode (T0 + 3) ex_state) = Ok (normalise (T0 + 3) ex_state).
+Proof. vm_compute. reflexivity. Qed.
+
+(* what the save + load changed: the second info time is clamped to the clock (rounded down to a multiple of 8) and the
+   map of the empty disk d3 is gone; everything else is kept *)
+Example ex_normalise_effect :
+  c_info (normalise (T0 + 3) ex_state) = [T0 + 4; T0 + 1; T0 - 80 + 2; 0]
+  /\ map cm_name (c_maps (normalise (T0 + 3) ex_state)) = [[100;50]; [100;49]]
+  /\ c_disks (normalise (T0 + 3) ex_state) = c_disks ex_state
+  /\ c_parity (normalise (T0 + 3) ex_state) = c_parity ex_state
+  /\ c_prevhash (normalise (T0 + 3) ex_state) = H_MURMUR3.
+Proof. vm_compute. repeat split; reflexivity. Qed.
+
+Example ex_idempotent : normalise (T0 + 3) (normalise (T0 + 3) ex_state) = normalise (T0 + 3) ex_state.
+Proof. vm_compute. reflexivity. Qed.
+
+Example ex_rewrite_fixpoint :
+  let b := encode (T0 + 3) (normalise (T0 + 3) ex_state) in
+  match decode (conf_of ex_state) b with Ok s' => encode (T0 + 3) s' = b | _ => False end.
+Proof. vm_compute. reflexivity. Qed.
